@@ -33,6 +33,9 @@ def arr(rs, container="array"):
         info = np.iinfo(container)          # narrow integer arrays (sample indices, hours, ...) when the values fit
         if all(info.min <= r[0] <= info.max for r in rs):
             return np.array([r[0] for r in rs], dtype=container)
+    if container == "series":                     # a pandas Series with the default index is array-like too
+        import pandas as pd
+        return pd.Series(np.array([fl(r) for r in rs], dtype=float))
     return np.array([fl(r) for r in rs], dtype=float)
 
 
@@ -51,7 +54,7 @@ def xarr(rs, container, off):
         return a
     if isinstance(a, list):
         return [v + (int(off) if isinstance(v, int) else off) for v in a]
-    return a + (int(off) if a.dtype.kind in "iu" else off)
+    return a + (int(off) if a.dtype.kind in "iu" else off)          # ndarray and Series alike
 
 
 def xvec(v, off):
